@@ -396,6 +396,27 @@ fn main() {
                 emit(kind, cap, &prog, &ex, &q, &mut out);
             }
         }
+        // weak-memory correspondence (UniqueIndexSet only): seeded random programs and schedules with
+        // C11-permitted STALE values injected into loads / failed compare-exchanges of the head word
+        "ras" => {
+            let count: u64 = a[3].parse().unwrap();
+            let shard: u64 = a[4].parse().unwrap(); let nsh: u64 = a[5].parse().unwrap(); let seed: u64 = a[6].parse().unwrap();
+            let percent: u64 = a.get(7).map(|s| s.parse().unwrap()).unwrap_or(40);
+            for n in 0..count {
+                if n % nsh != shard { continue; }
+                let mut rng = Rng(seed ^ n.wrapping_mul(0x2545F4914F6CDD1D) ^ 0x5157);
+                let (cap, prog) = random_program("uis", &mut rng);
+                let q = make("uis", cap);
+                sched::stale_enable(rng.next(), percent, &["unique_index_set.rs"]);
+                let ex = run_random(rng.next(), bodies(&q, &prog));
+                let inj = sched::stale_disable();
+                let _ = writeln!(out, "C uisra {} {} {}", cap, prog_str("uis", &prog), distance_of(&ex));
+                print_exec_filtered(&ex, &mut out);
+                let schedv: Vec<String> = ex.choices.iter().map(|c| c.to_string()).collect();
+                let _ = writeln!(out, "S {} inj={}", schedv.join(","), inj);
+                let _ = writeln!(out, "F {}", final_obs(&q, cap).join(","));
+            }
+        }
         "one" => {
             let kind = a[2].as_str(); let cap: usize = a[3].parse().unwrap();
             let prog = p(&a[4]);
